@@ -253,6 +253,13 @@ func (n *AlertNode) Build(a *pipeline.AlertNode) (ast.Node, error) {
 		}
 	}
 
+	// The teams handler has to come before the opsGenie handlers:
+	// on an opsGenie handler .teams() is the property of that handler.
+	for _, h := range a.TeamsHandlers {
+		n.Dot("teams").
+			Dot("channelURL", h.ChannelURL)
+	}
+
 	for _, h := range a.OpsGenieHandlers {
 		n.Dot("opsGenie").
 			Dot("teams", args(h.TeamsList)...).
@@ -307,10 +314,5 @@ func (n *AlertNode) Build(a *pipeline.AlertNode) (ast.Node, error) {
 			n.Dot("customField", k, h.CustomFieldsMap[k])
 		}
 	}
-	for _, h := range a.TeamsHandlers {
-		n.Dot("teams").
-			Dot("channelURL", h.ChannelURL)
-	}
-
 	return n.prev, n.err
 }
